@@ -4,6 +4,6 @@ use parity_scale_codec::{Compact, Decode, Encode};
 pub enum T {
 	V0(u8),
 	#[codec(index = 1)] V1(u8),
-	#[codec(skip)] #[codec(index = 0)] V2,
+	#[codec(index = 0)] #[codec(skip)] V2,
 }
 fn main() {}
